@@ -302,7 +302,9 @@ def _(c):
         " and block.header.pow_evidence.chain_sample == construct_pow_evidence(coinstate, block.header.summary, h, txs).chain_sample"
         " and block.header.pow_evidence.block_hash == construct_pow_evidence(coinstate, block.header.summary, h, txs).block_hash)" % full,
         "implies(%s, len(txs) >= 1 and G.coinbase_in_state(txs[0], block, coinstate))" % full,
-        "implies(%s, all(G.tx_in_state(txs[1 + j], prev, coinstate) for j in range(len(txs) - 1)))" % full)
+        "implies(%s, all(G.tx_in_state(txs[1 + j], prev, coinstate) for j in range(len(txs) - 1)))" % full,
+        # ---- below the horizon (C18): at a checkpointed height only the checkpointed id is accepted
+        "implies(h <= 163000 and G.is_checkpoint(h), block.hash() == G.checkpoint(h))")
     c.loop(0).invariant("all(G.tx_in_state(txs[1 + j], prev, coinstate) for j in range(i))")
 
 
